@@ -493,7 +493,9 @@ def h1(ctx):
                         continue
                     args = args[pos[-1] - 1:]
                 if d == "get_properties_with_data":
-                    args = args[1:]
+                    from .common import call_arg
+                    a_h, a_r = call_arg(ctx, fi, c, "href", 1), call_arg(ctx, fi, c, "resource", 2)
+                    args = [a_h, a_r] if a_h is not None and a_r is not None else args[1:]
                 if len(args) < 2 or not isinstance(args[1], ast.Name):
                     continue
                 rdefs = [x for x in du.reaching(n, args[1].id) if x.kind == "for"]
